@@ -861,12 +861,24 @@ def replay(data):
         print("energy_estimation = %.12f ; independent value = %.12f" % (ev["E"], ev["spec"].real))
         if abs(ev["E"] - ev["spec"]) > TOL:
             ck.violations.append("value")
+        lm = lambda_min(s, ev["terms"], ev["n"])
+        if lm is not None:
+            print("lambda_min = %.12f" % lm)
+            if ev["E"] < lm - 1e-9:
+                ck.violations.append("below")
+        if s.molecule is not None and s.molecule.mf_energy is not None and not any(theta):
+            print("mean-field energy = %.12f" % s.molecule.mf_energy)
+            if r["cfg"].get("ansatz") in UCC_LIKE + ("pUCCD", "UCC1", "UCC3") and abs(ev["E"] - s.molecule.mf_energy) > 1e-6:
+                ck.violations.append("mean-field")
+        generic = list(ck.violations)
         if s.molecule is not None:
             sym_checks(ck, s, r["cfg"], theta, ev, {"kind": "solver", "cfg": r["cfg"], "theta": theta})
-        return 1 if ck.violations else 0
+        target = data.get("signature")
+        # violations with another signature (e.g. recorded known findings met on the way) do not count
+        return 1 if generic or target in ck.violations else 0
     if kind == "restore":
         restore_cases(ck)
-        return 1 if ck.violations else 0
+        return 1 if data.get("signature") in ck.violations else 0
     if kind == "model":
         s = make_solver(r["cfg"])
         theta = [g.parameter for g in s.ansatz.circuit._variational_gates]
